@@ -23,7 +23,7 @@
 //                 has its (small) output to write; the exit code and the child's own account must be unaffected
 //
 // Command lines are built by the rules of DESIGN 4.1: words separated by single spaces, quotes only as "..." segments with
-// \" inside, words non-empty; a backslash stays in a word only where it cannot be read as the escape of a quote (otherwise it is
+// \" inside, an empty word is ""; a backslash stays in a word only where it cannot be read as the escape of a quote (otherwise it is
 // replaced by '/' in this form only), and words with such backslashes are compared modulo backslashes.
 #define PBT_MAIN
 #include "pbt.hpp"
@@ -126,6 +126,7 @@ std::string minimalRuns(const std::string& w, bool& usedQuotes, bool& escaped) {
 // one word of the command-line form; w is non-empty and free of backslashes
 std::string renderWord(const std::string& w, long q, long s, bool& usedQuotes, bool& escaped) {
   bool any = false; for (char c : w) any = any || needsQuotes(c);
+  if (w.empty()) { usedQuotes = true; return "\"\""; }   // an empty word can only be written as an empty quoted segment
   switch (((q % 4) + 4) % 4) {
     case 0: if (!any) return w; usedQuotes = true; return quoted(w, escaped);
     case 1: usedQuotes = true; return quoted(w, escaped);
@@ -290,7 +291,7 @@ void runOne(const Op& op, Pending& pd, Ctx& ctx, Process*& kept) {
             bool keep = !(w.q & 4) && ci + 1 < s.size() && s[ci + 1] != '"' && s[ci + 1] != '\\';
             if (keep) { freeBackslash = true; } else s[ci] = '/';
           }
-        if (s.empty()) { ctx.count("skipped"); continue; }
+        if (s.empty()) ctx.label(&w == &pd.args.back() ? "cmd_empty_word_last" : "cmd_empty_word");
         cmdline += " " + renderWord(s, w.q, w.sp, uq, esc);
       }
       expArgv.push_back(s);
